@@ -124,7 +124,9 @@ def widen(rng, iv):
     out = []
     for lo, hi in ivs:
         out.append([lo - float(rng.choice([0.0, 0.3, 1.0, 5.0])), hi + float(rng.choice([0.0, 0.3, 1.0, 5.0]))])
-    if rng.integers(3) == 0:
+    if rng.integers(3) == 0 and len(out) < 3:
+        # at most three listed intervals: the base-4 area code of the penalty probes counts a point once per listed
+        # interval that reaches it and would carry into the next digit at multiplicity 4
         out.append([ivs[0][1] + 7.0, ivs[0][1] + 9.0])
     return out if (len(out) > 1 or rng.integers(2)) else out[0]
 
